@@ -221,8 +221,9 @@ def judge_protocols(case) -> Verdict:
 
     rec, platform = case["rec"], case["platform"]
     G.validate_rec(rec, platform)
-    if rec.get("sp") or rec.get("dp") or rec.get("flags"):
+    if rec.get("flags"):
         raise Invalid()
+    has_ports = bool(rec.get("sp") or rec.get("dp"))
     items = case["items"]
     if not items or len(items) > 10:
         raise Invalid()
@@ -238,6 +239,11 @@ def judge_protocols(case) -> Verdict:
     try:
         lines = range_protocols(**kw)
     except ValueError as ex:
+        if has_ports:
+            # a template that carries ports may be refused when the protocol changes (port names are
+            # protocol specific, other protocols have no ports); returned lines are judged below
+            v.label("refused-port-template")
+            return v
         v.fail("protocols:refused", dict(detail, error=str(ex)[:200]))
         return v
     detail["lines"] = lines[:12]
@@ -249,12 +255,20 @@ def judge_protocols(case) -> Verdict:
         except R.RefError as ex:
             v.fail("protocols:line-not-valid-for-platform", dict(detail, line=ln, why=str(ex)[:200]))
             return v
-        if (r.seq, r.action, r.src.meaning(), r.dst.meaning(), r.options, r.sport, r.dport) != \
-                (base.seq, base.action, base.src.meaning(), base.dst.meaning(), base.options, None, None):
-            v.fail("protocols:line-differs-from-template-in-another-field", dict(detail, line=ln))
+        same = (r.seq, r.action, r.src.meaning(), r.dst.meaning(), r.options) == \
+               (base.seq, base.action, base.src.meaning(), base.dst.meaning(), base.options)
+        if r.proto in (6, 17):
+            # tcp / udp lines keep the template's ports (the only field that may differ is the protocol)
+            same = same and all((a.op, a.ivs) == (b.op, b.ivs) if a and b else a is b
+                                for a, b in ((r.sport, base.sport), (r.dport, base.dport)))
+        else:
+            same = same and (r.sport, r.dport) == (None, None)  # ports cannot be expressed for other protocols
+        if not same:
+            v.fail("protocols:line-differs-from-template-in-another-field" + (":ports" if has_ports else ""),
+                   dict(detail, line=ln))
             return v
         tok = ln.split()[2 if base.seq else 1]
-        if case["protocol_nr"] and not tok.isdigit():
+        if case["protocol_nr"] and not tok.isdigit() and not (r.sport or r.dport):
             v.fail("protocols:protocol_nr-renders-name", dict(detail, line=ln))
         got.append(r.proto)
     want = R.iv_norm((it, it) if isinstance(it, int) else (it[0], it[1]) for it in items)
@@ -274,8 +288,18 @@ def protocols_case_st(draw, tier):
     rec = G.to_native(rec, platform)
     rec["sp"] = rec["dp"] = None
     rec["flags"] = []
+    port_template = draw(st.sampled_from([True, False, False]))
+    if port_template:
+        rec["proto"] = draw(st.sampled_from([6, 17]))
+        names = G.lib_port_names(rec["proto"], platform)
+        rec["sp"] = draw(G.port_st(platform, names, True, False, False))
+        rec["dp"] = draw(G.port_st(platform, names, False, False, False))
+    else:
+        rec["sp"] = rec["dp"] = None
     items = []
     pv = st.one_of(st.integers(0, 20), st.sampled_from([0, 1, 6, 17, 47, 50, 51, 88, 89, 255]), st.integers(0, 255))
+    if port_template:
+        pv = st.sampled_from([6, 17, 6, 17, 1, 5, 16, 18, 47])
     for _ in range(draw(st.integers(1, 8))):
         if draw(st.integers(0, 2)) == 0:
             a = draw(pv)
